@@ -117,8 +117,9 @@ type Chain struct {
 	Users map[string]Actor
 	Opts  Options
 
-	seqBump map[string]uint64
-	LastRes *abci.ResponseFinalizeBlock
+	seqBump  map[string]uint64
+	oldHomes []string
+	LastRes  *abci.ResponseFinalizeBlock
 }
 
 var initOnce bool
@@ -276,11 +277,22 @@ func (c *Chain) Close() {
 	if c.Home != "" {
 		_ = os.RemoveAll(c.Home)
 	}
+	for _, h := range c.oldHomes {
+		_ = os.RemoveAll(h)
+	}
 }
 
 // Restart models a node restart: a new App over the same DB (re-binds the event bus).
 func (c *Chain) Restart() {
 	_ = c.App.Close()
+	// the wasm VM of the old App keeps its cache directory locked for the life of the process, so the new App gets a
+	// fresh one (the cache holds no consensus state)
+	c.oldHomes = append(c.oldHomes, c.Home)
+	home, err := os.MkdirTemp("", "verif-chain-")
+	if err != nil {
+		panic(err)
+	}
+	c.Home = home
 	c.App = newApp(c.DB, c.Home, c.Opts.Logger)
 }
 
